@@ -117,3 +117,81 @@ Check C10_example_50 : bds50_ok sample50 = true /\ bds50_doc sample50 = {| b50_r
 Print Assumptions C10_example_50.
 
 
+
+(** ---- the stages of the Comm-B decoder, with exact results ---- *)
+From SQ Require Import Base Update Footprint BdsProof CommBStages.
+
+
+(** a reply identified as BDS 2,0 changes the callsign and nothing else *)
+Theorem C10_stage_20 : forall (r : row) (m : list N) (relaxed : bool) (r' : row), bds m = Ok (2, 0) -> update_from_mode_s r m relaxed = Ok r' -> exists a : option (list N), ais m = Ok a /\ r' = r <| r_ais := a |>.
+Proof. exact commb_20. Qed.
+Check C10_stage_20 : forall (r : row) (m : list N) (relaxed : bool) (r' : row), bds m = Ok (2, 0) -> update_from_mode_s r m relaxed = Ok r' -> exists a : option (list N), ais m = Ok a /\ r' = r <| r_ais := a |>.
+Print Assumptions C10_stage_20.
+
+(** a reply identified as BDS 3,0 sets the threat marker to the decoded value and nothing else *)
+Theorem C10_stage_30 : forall (r : row) (m : list N) (relaxed : bool) (r' : row), bds m = Ok (3, 0) -> update_from_mode_s r m relaxed = Ok r' -> exists t : option N, threat_encounter m = Ok t /\ r' = r <| threat := t |>.
+Proof. exact commb_30. Qed.
+Check C10_stage_30 : forall (r : row) (m : list N) (relaxed : bool) (r' : row), bds m = Ok (3, 0) -> update_from_mode_s r m relaxed = Ok r' -> exists t : option N, threat_encounter m = Ok t /\ r' = r <| threat := t |>.
+Print Assumptions C10_stage_30.
+
+(** ... in particular a report without a threat bit clears the marker *)
+Theorem C10_stage_30_clears : forall (r : row) (m : list N) (relaxed : bool) (r' : row), bds m = Ok (3, 0) -> threat_encounter m = Ok None -> update_from_mode_s r m relaxed = Ok r' -> r' = r <| threat := None |>.
+Proof. exact commb_30_clears. Qed.
+Check C10_stage_30_clears : forall (r : row) (m : list N) (relaxed : bool) (r' : row), bds m = Ok (3, 0) -> threat_encounter m = Ok None -> update_from_mode_s r m relaxed = Ok r' -> r' = r <| threat := None |>.
+Print Assumptions C10_stage_30_clears.
+
+(** BDS 1,0 is recognised and changes nothing *)
+Theorem C10_stage_10 : forall (r : row) (m : list N) (relaxed : bool) (r' : row), bds m = Ok (1, 0) -> update_from_mode_s r m relaxed = Ok r' -> r' = r.
+Proof. exact commb_10. Qed.
+Check C10_stage_10 : forall (r : row) (m : list N) (relaxed : bool) (r' : row), bds m = Ok (1, 0) -> update_from_mode_s r m relaxed = Ok r' -> r' = r.
+Print Assumptions C10_stage_10.
+
+(** a BDS 1,7 capability report REPLACES the recorded register flags (the latest report counts) and changes nothing else *)
+Theorem C10_stage_17_latest : forall (r : row) (m : list N) (relaxed : bool) (r' : row) (c : capability), bds m = Ok (0, 0) -> is_bds_1_7 m = Ok (Some c) -> update_from_mode_s r m relaxed = Ok r' -> r' = r <| cap := c |>.
+Proof. exact commb_17_latest. Qed.
+Check C10_stage_17_latest : forall (r : row) (m : list N) (relaxed : bool) (r' : row) (c : capability), bds m = Ok (0, 0) -> is_bds_1_7 m = Ok (Some c) -> update_from_mode_s r m relaxed = Ok r' -> r' = r <| cap := c |>.
+Print Assumptions C10_stage_17_latest.
+
+(** a reply that no stage recognises (or whose register is gated off) leaves the row as it was *)
+Theorem C10_nothing_recognised : forall (r : row) (m : list N) (relaxed : bool) (r' : row), bds m = Ok (0, 0) -> is_bds_1_7 m = Ok None -> relaxed || c40 (cap r) = false \/ is_bds_4_0 m = Ok None -> relaxed || c50 (cap r) = false \/ is_bds_5_0 m = Ok None -> relaxed || c60 (cap r) = false \/ is_bds_6_0 m = Ok None -> is_bds_4_4 m = Ok None -> is_bds_4_5 m = Ok None -> update_from_mode_s r m relaxed = Ok r' -> r' = r.
+Proof. exact commb_none. Qed.
+Check C10_nothing_recognised : forall (r : row) (m : list N) (relaxed : bool) (r' : row), bds m = Ok (0, 0) -> is_bds_1_7 m = Ok None -> relaxed || c40 (cap r) = false \/ is_bds_4_0 m = Ok None -> relaxed || c50 (cap r) = false \/ is_bds_5_0 m = Ok None -> relaxed || c60 (cap r) = false \/ is_bds_6_0 m = Ok None -> is_bds_4_4 m = Ok None -> is_bds_4_5 m = Ok None -> update_from_mode_s r m relaxed = Ok r' -> r' = r.
+Print Assumptions C10_nothing_recognised.
+
+(** an all-zero MB field is recognised by no stage: the row is unchanged *)
+Theorem C10_empty_mb : forall m : list N, wf m -> Datatypes.length m = 28%nat -> field m 33 88 = 0 -> forall (r : row) (relaxed : bool), update_from_mode_s r m relaxed = Ok r.
+Proof. exact commb_empty. Qed.
+Check C10_empty_mb : forall m : list N, wf m -> Datatypes.length m = 28%nat -> field m 33 88 = 0 -> forall (r : row) (relaxed : bool), update_from_mode_s r m relaxed = Ok r.
+Print Assumptions C10_empty_mb.
+
+(** temperature, wind, humidity, turbulence and pressure change only through a recognised BDS 4,4 / 4,5 register *)
+Theorem C10_weather_only_from_44_45 : forall (r : row) (m : list N) (relaxed : bool) (r' : row), update_from_mode_s r m relaxed = Ok r' -> temperature r' <> temperature r \/ wind r' <> wind r \/ humidity r' <> humidity r \/ turbulence r' <> turbulence r \/ pressure r' <> pressure r -> bds m = Ok (0, 0) /\ ((exists v : meteo, is_bds_4_4 m = Ok (Some v)) \/ (exists t : Q, is_bds_4_5 m = Ok (Some t))).
+Proof. exact weather_only_from_44_45. Qed.
+Check C10_weather_only_from_44_45 : forall (r : row) (m : list N) (relaxed : bool) (r' : row), update_from_mode_s r m relaxed = Ok r' -> temperature r' <> temperature r \/ wind r' <> wind r \/ humidity r' <> humidity r \/ turbulence r' <> turbulence r \/ pressure r' <> pressure r -> bds m = Ok (0, 0) /\ ((exists v : meteo, is_bds_4_4 m = Ok (Some v)) \/ (exists t : Q, is_bds_4_5 m = Ok (Some t))).
+Print Assumptions C10_weather_only_from_44_45.
+
+(** through the pipeline: a DF20/21 BDS 2,0 reply on an existing row with the gate open sets the callsign to its eight characters *)
+Theorem C10_callsign_end_to_end : forall (o : Table.opts) (now : Z) (s : Table.state) (line : list N) (s' : Table.state) (rf : bool) (df a : N) (r : row) (m : list N), Table.step_line o now s line = Ok (s', rf, Table.Applied df a) -> df = 20 \/ df = 21 -> Table.lookup (Table.tbl s) a = Some r -> (0 < Table.delete_after o)%Z -> get_message line = Ok (Some m) -> Table.relaxed o = true \/ 3 < cap_ca r -> bds m = Ok (2, 0) -> exists r' : row, Table.lookup (Table.tbl s') a = Some r' /\ r_ais r' = Some (Ia5.ais_spec m).
+Proof. exact callsign_commb_end_to_end. Qed.
+Check C10_callsign_end_to_end : forall (o : Table.opts) (now : Z) (s : Table.state) (line : list N) (s' : Table.state) (rf : bool) (df a : N) (r : row) (m : list N), Table.step_line o now s line = Ok (s', rf, Table.Applied df a) -> df = 20 \/ df = 21 -> Table.lookup (Table.tbl s) a = Some r -> (0 < Table.delete_after o)%Z -> get_message line = Ok (Some m) -> Table.relaxed o = true \/ 3 < cap_ca r -> bds m = Ok (2, 0) -> exists r' : row, Table.lookup (Table.tbl s') a = Some r' /\ r_ais r' = Some (Ia5.ais_spec m).
+Print Assumptions C10_callsign_end_to_end.
+
+(** ... a BDS 3,0 reply sets the threat marker per the two threat bits *)
+Theorem C10_threat_end_to_end : forall (o : Table.opts) (now : Z) (s : Table.state) (line : list N) (s' : Table.state) (rf : bool) (df a : N) (r : row) (m : list N), Table.step_line o now s line = Ok (s', rf, Table.Applied df a) -> df = 20 \/ df = 21 -> Table.lookup (Table.tbl s) a = Some r -> (0 < Table.delete_after o)%Z -> get_message line = Ok (Some m) -> Table.relaxed o = true \/ 3 < cap_ca r -> bds m = Ok (3, 0) -> exists r' : row, Table.lookup (Table.tbl s') a = Some r' /\ threat r' = threat_spec m.
+Proof. exact threat_commb_end_to_end. Qed.
+Check C10_threat_end_to_end : forall (o : Table.opts) (now : Z) (s : Table.state) (line : list N) (s' : Table.state) (rf : bool) (df a : N) (r : row) (m : list N), Table.step_line o now s line = Ok (s', rf, Table.Applied df a) -> df = 20 \/ df = 21 -> Table.lookup (Table.tbl s) a = Some r -> (0 < Table.delete_after o)%Z -> get_message line = Ok (Some m) -> Table.relaxed o = true \/ 3 < cap_ca r -> bds m = Ok (3, 0) -> exists r' : row, Table.lookup (Table.tbl s') a = Some r' /\ threat r' = threat_spec m.
+Print Assumptions C10_threat_end_to_end.
+
+(** ... a BDS 1,7 report replaces the recorded register flags *)
+Theorem C10_capability_end_to_end : forall (o : Table.opts) (now : Z) (s : Table.state) (line : list N) (s' : Table.state) (rf : bool) (df a : N) (r : row) (m : list N) (c : capability), Table.step_line o now s line = Ok (s', rf, Table.Applied df a) -> df = 20 \/ df = 21 -> Table.lookup (Table.tbl s) a = Some r -> (0 < Table.delete_after o)%Z -> get_message line = Ok (Some m) -> Table.relaxed o = true \/ 3 < cap_ca r -> bds m = Ok (0, 0) -> is_bds_1_7 m = Ok (Some c) -> exists r' : row, Table.lookup (Table.tbl s') a = Some r' /\ cap r' = c.
+Proof. exact capability_commb_end_to_end. Qed.
+Check C10_capability_end_to_end : forall (o : Table.opts) (now : Z) (s : Table.state) (line : list N) (s' : Table.state) (rf : bool) (df a : N) (r : row) (m : list N) (c : capability), Table.step_line o now s line = Ok (s', rf, Table.Applied df a) -> df = 20 \/ df = 21 -> Table.lookup (Table.tbl s) a = Some r -> (0 < Table.delete_after o)%Z -> get_message line = Ok (Some m) -> Table.relaxed o = true \/ 3 < cap_ca r -> bds m = Ok (0, 0) -> is_bds_1_7 m = Ok (Some c) -> exists r' : row, Table.lookup (Table.tbl s') a = Some r' /\ cap r' = c.
+Print Assumptions C10_capability_end_to_end.
+
+(** ... a reply with an empty MB field changes only stamp, format and the altitude / identity of its surveillance part *)
+Theorem C10_empty_end_to_end : forall (o : Table.opts) (now : Z) (s : Table.state) (line : list N) (s' : Table.state) (rf : bool) (df a : N) (r : row) (m : list N), Table.step_line o now s line = Ok (s', rf, Table.Applied df a) -> df = 20 \/ df = 21 -> Table.lookup (Table.tbl s) a = Some r -> (0 < Table.delete_after o)%Z -> get_message line = Ok (Some m) -> field m 33 88 = 0 -> exists r' : row, Table.lookup (Table.tbl s') a = Some r' /\ modifies [F_timestamp; F_last_df; F_altitude; F_altitude_source; F_squawk] r r'.
+Proof. exact empty_commb_end_to_end. Qed.
+Check C10_empty_end_to_end : forall (o : Table.opts) (now : Z) (s : Table.state) (line : list N) (s' : Table.state) (rf : bool) (df a : N) (r : row) (m : list N), Table.step_line o now s line = Ok (s', rf, Table.Applied df a) -> df = 20 \/ df = 21 -> Table.lookup (Table.tbl s) a = Some r -> (0 < Table.delete_after o)%Z -> get_message line = Ok (Some m) -> field m 33 88 = 0 -> exists r' : row, Table.lookup (Table.tbl s') a = Some r' /\ modifies [F_timestamp; F_last_df; F_altitude; F_altitude_source; F_squawk] r r'.
+Print Assumptions C10_empty_end_to_end.
+
+
